@@ -137,16 +137,31 @@ def random_batches(tier, rng, n_cases, same_version=True):
     return cases
 
 
+def huge_frames(tier, rng):
+    """frames longer than 65535 bytes: message headers that start at offsets >= 2^16 (a 16-bit offset or size somewhere shows here)"""
+    cases = []
+    for mx in [65553, 65556, 65559, 70000, 100000, 131096]:
+        for first in ([65510, 65512, 65515, 65518, 65519, 65520, 65535] if tier != "quick" else [65512, 65518, 65535]):
+            small = [gpkt(rng.randrange(1, 8), rng.randrange(251), ty=0x01FF, ts=rng.getrandbits(40)) for _ in range(3)]
+            pk = [gpkt(first, rng.randrange(251), ty=0x01FF, ts=1)] + small
+            cases.append(rt_case(pk, rng.choice([0, mx]), mx, 3, 4, ("huge-frame",)))
+    return cases
+
+
 def gen_c01(tier, rng):
     cases = small_exhaustive(tier, rng)
+    cases += huge_frames(tier, rng)
     cases += random_batches(tier, rng, 1500 if tier == "quick" else 20000)
     # any encoder history before the batch (the theorem quantifies over every encoder state)
     for c in random_batches(tier, rng, 300 if tier == "quick" else 3000):
         m = c.meta
         n = len(m["pkts"])
         pre = []
+        longest = max(plen(p) for p in m["pkts"])
         for _h in range(rng.randrange(1, 4)):
             mx = rng.choice([25, 40, 64, 100, 1500])
+            if longest // (mx - 24) > 1500:      # keep the number of frames of a history call moderate
+                mx = max(1500, longest // 40)
             ids = " ".join("p%d" % rng.randrange(n) for _k in range(rng.randrange(0, 4)))
             pre.append(("enc e encode %d %d %s" % (rng.choice([0, mx]), mx, ids)).rstrip())
         if rng.random() < 0.2:
@@ -167,6 +182,7 @@ def gen_c01(tier, rng):
 
 def gen_c07(tier, rng):
     cases = small_exhaustive(tier, rng)
+    cases += huge_frames(tier, rng)
     cases += random_batches(tier, rng, 1500 if tier == "quick" else 20000, same_version=False)
     # empty batch
     for mx in (25, 64, 1500):
